@@ -129,8 +129,20 @@ class Generator:
                                        why=('/%s/ is also called from %s' % (call_re, ', '.join(offenders))) if offenders else '',
                                        src_file=here.src_file if here else '', src_line=here.src_line if here else 0))
         unused = set(self.contracts) - self.used_contracts
-        if unused:
-            raise ToolCondition('lost anchor: contract(s) name items that no longer exist: %s' % sorted(unused))
+        # A contract whose item is gone is moot IF it only says what that item did (requires/ensures/proof hints): whoever took its
+        # work over is judged by its own contract (or, having none, makes its callers' failures 'undecided').  A missing item that carries
+        # crate-wide structural obligations, ghost definitions or type-level attributes is still a lost anchor.
+        hard = []
+        self.removed_items = []
+        for a in sorted(unused):
+            c = self.contracts[a]
+            structural = bool(c.callsites or c.holds or c.mustcall or c.contains or getattr(c, 'nohandle', None) or getattr(c, 'order', None))
+            if structural or c.ghost.strip() or c.after.strip() or c.attrs or '@module' in a or '::impl' in a or a.endswith('>') or not re.search(r'::[a-z_][A-Za-z0-9_]*$', a):
+                hard.append(a)
+            else:
+                self.removed_items.append(a)
+        if hard:
+            raise ToolCondition('lost anchor: contract(s) name items that no longer exist: %s' % hard)
         return self.finish()
 
     def module(self, rel: str, top=False):
